@@ -64,7 +64,8 @@ class C12(TalCheck):
         pretty = ch.coin(0.85)
         return {"tmpl": tmpl, "plan_seed": ch.choose(1 << 30),
                 "pretty": pretty, "crlf": pretty and ch.coin(0.2),
-                "seps": pretty and ch.coin(0.25), "data": ch.coin(0.15)}
+                "seps": pretty and ch.coin(0.25), "data": ch.coin(0.15),
+                "bom": "files" not in tmpl and ch.coin(0.1)}
 
     def make_plans(self, case, tmpl, template) -> list:
         if "plans" in case:
